@@ -19,10 +19,13 @@ func c12Plan(lens []int, capsIn []int) *driver.Plan {
 }
 
 func c12Gen(r *driver.Rand, thorough bool) *driver.Plan {
-	k := driver.Pick(r, 0, 1, 2, 2, 3, 3, 5)
+	k := driver.Pick(r, 0, 1, 2, 2, 3, 3, 5, 5, 8, 9, 12, 17)
 	lens := make([]int, k)
 	for i := range lens {
 		lens[i] = r.Intn(7)
+		if k > 5 {
+			lens[i] = r.Intn(3)
+		}
 		if thorough && r.Chance(1, 5) {
 			lens[i] = r.Intn(31)
 		}
@@ -48,7 +51,8 @@ func c12Gen(r *driver.Rand, thorough bool) *driver.Plan {
 
 func c12Enum(thorough bool) []*driver.Plan {
 	var out []*driver.Plan
-	shapes := [][]int{{}, {0}, {1}, {3}, {0, 0}, {1, 0}, {2, 2}, {1, 3}, {1, 1, 1}, {2, 0, 1}, {1, 1, 1, 1, 1}}
+	shapes := [][]int{{}, {0}, {1}, {3}, {0, 0}, {1, 0}, {2, 2}, {1, 3}, {1, 1, 1}, {2, 0, 1}, {1, 1, 1, 1, 1},
+		{1, 1, 1, 1, 1, 1, 1, 1}, {1, 1, 1, 1, 1, 1, 1, 1, 1}, {1, 0, 1, 2, 1, 0, 1, 1, 1, 1, 1, 1, 1, 1, 1, 1, 2}}
 	if thorough {
 		shapes = append(shapes, []int{4, 4}, []int{3, 3, 3}, []int{5, 1, 0, 2}, []int{2, 2, 2, 2, 2})
 	}
@@ -112,7 +116,7 @@ func c12Final(e *driver.Env) {
 		for i, in := range p.Inputs {
 			var got []int
 			for _, v := range s.Out.Values() {
-				if v/1000-1 == i {
+				if v/1000 == i {
 					got = append(got, v)
 				}
 			}
